@@ -165,6 +165,8 @@ class Schema:
         self.defs = []  # top-level definitions in declaration order
         self.counter = 0
         self.comments = True
+        self.style = None  # printing noise (comments, semicolons, hex, typedef, CRLF): non-fleet only
+        self.options = []  # proto-level options [(name, literal)]
 
     def fresh(self, prefix):
         k = self.counter
@@ -176,32 +178,69 @@ class Schema:
 
     # --------------------------------------------------------------- printing
     def text(self) -> str:
-        out = ["// generated schema", "proto %s" % self.name, ""]
+        st = self.style
+        self._noise = None
+        if st:
+            from .prng import Rng
+
+            self._noise = Rng(st.get("seed", 0), "style")
+        out = []
+        if st and st.get("lead_comment"):
+            out.append("// leading comment before proto")
+            out.append("")
+        out += ["// generated schema", "proto %s%s" % (self.name, self._semi()), ""]
+        for n, v in self.options:
+            out.append("option %s = %s%s" % (n, v, self._semi()))
+        if self.options:
+            out.append("")
         for d in self.defs:
             out.extend(self._print_def(d, 0, None))
             out.append("")
-        return "\n".join(out) + "\n"
+        text = "\n".join(out) + "\n"
+        if st and st.get("tail_comment"):
+            text += "// trailing comment" + ("\n" if st.get("tail_newline", True) else "")
+        if st and st.get("crlf"):
+            text = text.replace("\n", "\r\n")
+        return text
+
+    def _semi(self):
+        n = self._noise
+        return ";" if n is not None and n.chance(0.3) else ""
+
+    def _comment(self, pad, lines):
+        n = self._noise
+        if n is not None and n.chance(0.2):
+            for _ in range(n.randint(1, 2)):
+                lines.append("%s// %s" % (pad, n.choice(["note", "TODO: x", "", "a // b", "é", "  spaced  ", "ends with backslash \\\\"])))
 
     def _print_def(self, d, ind, scope):
         pad = " " * ind
+        lines = []
+        self._comment(pad, lines)
         if d.kind == "const":
-            return ["%sconst %s = %s" % (pad, d.name, d.expr)]
+            return lines + ["%sconst %s = %s%s" % (pad, d.name, d.expr, self._semi())]
         if d.kind == "enum":
-            lines = ["%senum %s : uint%d {" % (pad, d.name, d.bits)]
+            lines.append("%senum %s : uint%d {" % (pad, d.name, d.bits))
             for n, v in d.members:
-                lines.append("%s    %s = %d" % (pad, n, v))
+                self._comment(pad + "    ", lines)
+                lit = ("0x%x" % v) if self._noise is not None and self._noise.chance(0.2) else "%d" % v
+                lines.append("%s    %s = %s%s" % (pad, n, lit, self._semi()))
             lines.append(pad + "}")
             return lines
         if d.kind == "alias":
-            return ["%stype %s = %s" % (pad, d.name, d.target.ref(scope))]
+            if self._noise is not None and self.style.get("typedef") and self._noise.chance(0.3):
+                return lines + ["%stypedef %s %s%s" % (pad, d.target.ref(scope), d.name, self._semi())]
+            return lines + ["%stype %s = %s%s" % (pad, d.name, d.target.ref(scope), self._semi())]
         if d.kind == "message":
-            lines = ["%smessage %s%s {" % (pad, d.name, "'" if d.ext else "")]
+            lines.append("%smessage %s%s {" % (pad, d.name, "'" if d.ext else ""))
             for n, v in d.options:
-                lines.append("%s    option %s = %s" % (pad, n, v))
+                lines.append("%s    option %s = %s%s" % (pad, n, v, self._semi()))
             for nd in d.nested:
                 lines.extend(self._print_def(nd, ind + 4, d))
             for f in d.fields:
-                lines.append("%s    %s %s = %d" % (pad, f.type.ref(d), f.name, f.num))
+                self._comment(pad + "    ", lines)
+                tail = "  // %dbit" % nbits(f.type) if self._noise is not None and self._noise.chance(0.1) else ""
+                lines.append("%s    %s %s = %d%s%s" % (pad, f.type.ref(d), f.name, f.num, self._semi(), tail))
             lines.append(pad + "}")
             return lines
         raise ValueError(d.kind)
@@ -265,6 +304,19 @@ class GenCfg:
         self.dense_enums = fleet  # fleet: <= 8 bit, all values declared, 0 first (see DESIGN 4, soundness)
         self.consts = not fleet and rng.chance(0.6)
         self.options = not fleet and rng.chance(0.3)
+        # rarely combined but legal features (compiler world only)
+        self.p_empty = 0.0 if fleet else rng.choice([0.0, 0.1, 0.25])
+        self.odd_names = not fleet and rng.chance(0.3)
+        self.shadow = not fleet and rng.chance(0.3)
+        self.wide_enums = not fleet and rng.chance(0.4)
+        self.style = None if fleet else {
+            "seed": rng.below(1 << 30),
+            "lead_comment": rng.chance(0.2),
+            "tail_comment": rng.chance(0.2),
+            "tail_newline": True,  # a comment at EOF without newline is a grammar error
+            "crlf": rng.chance(0.05),
+            "typedef": rng.chance(0.2),
+        } if rng.chance(0.6) else None
 
 
 class Generator:
@@ -302,14 +354,16 @@ class Generator:
             r.shuffle(rest)
             vals = [0] + rest
         else:
-            bits = r.choice([1, 2, 3, 4, 7, 8, 9, 12, 16, 24, 32])
+            bits = r.choice([1, 2, 3, 4, 7, 8, 9, 12, 16, 24, 32] + ([33, 48, 63, 64] if self.cfg.wide_enums else []))
             n = r.randint(1, 5)
+            if r.chance(self.cfg.p_empty):
+                n = 0
             vals = []
             for _ in range(n):
-                v = r.below(min(1 << bits, 1 << 20))
+                v = r.below(min(1 << bits, 1 << 20)) if not (self.cfg.wide_enums and r.chance(0.3)) else r.below(1 << bits)
                 if v not in vals:
                     vals.append(v)
-            if r.chance(0.7) and 0 not in vals:
+            if n and r.chance(0.7) and 0 not in vals:
                 vals.insert(0, 0)
         up = name.upper()
         members = [("%s_%s" % (up, letters(i).upper()), v) for i, v in enumerate(vals)]
@@ -385,9 +439,19 @@ class Generator:
                 else:
                     m.nested.append(self.new_message(m, depth + 1))
         nfields = r.randint(0 if not c.fleet and r.chance(0.1) else 1, c.max_fields)
+        if r.chance(c.p_empty):
+            nfields = 0
+        if c.shadow and parent is not None and name is None and r.chance(0.5) and all(n.name != parent.name for n in parent.nested):
+            m.name = parent.name  # the same simple name at two nesting levels
         nums = r.sample(range(1, 40 if r.chance(0.8) else 256), nfields)
+        odd = ["type", "_lead", "trail_", "ALLCAPS", "camelCase", "PascalCase", "x9", "a__b", "value", "data", "s", "m", "id", "len"]
         for k, num in enumerate(nums):
-            f = Field(num, "x_" + letters(k), self.field_type(m, depth))
+            fname = "x_" + letters(k)
+            if c.odd_names and r.chance(0.3):
+                cand = r.choice(odd)
+                if cand not in [f.name for f in m.fields]:
+                    fname = cand
+            f = Field(num, fname, self.field_type(m, depth))
             m.fields.append(f)
         if c.options and r.chance(0.3):
             m.options.append(("max_bytes", str(8192)))
@@ -447,6 +511,11 @@ class Generator:
                 d = self.new_message(None, 1)
             s.defs.append(d)
             self.top_pool.append(d)
+        if c.options:
+            for oname, oval in (("c.struct_packing_alignment", str(r.choice([0, 1, 2, 4, 8]))), ("c.name_prefix", '"%s"' % r.choice(["bp_", "My", "x"])), ("go.package_path", '"example.com/x/y"'), ("py.module_name", '"pkt_mod"')):
+                if r.chance(0.3):
+                    s.options.append((oname, oval))
+        s.style = c.style
         root = self.new_message(None, 1, name="Packet", force_ext=(r.chance(0.7) if c.fleet else None))
         if not root.fields:
             root.fields.append(Field(1, "x_a", self.scalar()))
